@@ -50,3 +50,29 @@ Example C05_ex2 : bm_unpack ex_spec [] [x80; x01; x00; x02; xff] = ([x80; x01; x
 Proof. split; vm_compute; reflexivity. Qed.
 Example C05_ex3 : is_cont 2 1 2 1 = true /\ is_cont 2 1 2 17 = true /\ is_cont 2 1 2 33 = false.
 Proof. repeat split; vm_compute; reflexivity. Qed.
+
+(* ---- message level: in every packed message the bits set, continuation bits aside, are exactly the data
+   elements present (auto-expanding bitmaps; for fixed bitmaps Pack fails on an unrepresentable element:
+   set_bits checks IsSet after Set - Model/Message.v, the repair of F11) ---- *)
+From Iso Require Import Model.Spec Model.Field Model.Message Proofs.StateProofs.
+Theorem C05_msg_agree : forall S m m' b, bm_auto (ms_bm S) = true -> 1 <= bm_len (ms_bm S) ->
+  m_pack S m = (m', Ok b) ->
+  forall i, 2 <= i -> bm_is_presence_bit (ms_bm S) i = false -> bm_isset (m_bm m') i = zmem i (m_present m).
+Proof. exact m_pack_bitmap_agrees. Qed.
+Print Assumptions C05_msg_agree.
+
+(* a data element beyond a fixed bitmap makes Pack fail instead of being emitted unannounced *)
+Theorem C05_unrepresentable_fixed : forall b id rest bm, bm_auto b = false -> 2 <= id -> zlen bm * 8 < id ->
+  exists bm' e, set_bits b (id :: rest) bm = (bm', Err e).
+Proof.
+  intros b id rest bm Ha Hid Hout. cbn [set_bits]. unfold bm_is_presence_bit. rewrite Ha. cbn [negb orb].
+  replace (id <? 2) with false by lia. rewrite (bm_set_fixed_noop b bm id Ha Hout).
+  rewrite isset_out by lia. cbn [negb]. eexists _, _. reflexivity.
+Qed.
+Print Assumptions C05_unrepresentable_fixed.
+
+(* F25 (recorded finding): under an auto-expanding bitmap an element on a continuation position is skipped silently *)
+Theorem C05_unrepresentable_refuted : exists b id bm, bm_auto b = true /\ bm_is_presence_bit b id = true /\
+  set_bits b [id] bm = (bm, Ok tt).
+Proof. exists ex_spec, 17, (bm_new ex_spec). repeat split; vm_compute; reflexivity. Qed.
+Print Assumptions C05_unrepresentable_refuted.
